@@ -105,12 +105,15 @@ Definition serve (t : list entry) (extra_fallbacks : list bytes) (host_header ur
 Fixpoint trim_prefix (s p : bytes) : bytes :=
   if has_prefix s p then skipn (length p) s else s.
 (* trimPathPrefix hands the trimmed text back to url.Parse: a result that starts with "//" is read
-   as "//authority/path", so the text up to the next "/" disappears from the path *)
+   as "//authority/path" (unless it starts with "///"), so the text up to the next "/" disappears
+   from the path *)
 Fixpoint drop_to_slash (s : bytes) : bytes :=
   match s with [] => [] | c :: r => if c =? SLASH then s else drop_to_slash r end.
 Definition reparse (t : bytes) : bytes :=
   match t with
-  | a :: b :: r => if (a =? SLASH) && (b =? SLASH) then drop_to_slash r else t
+  | a :: b :: r => if (a =? SLASH) && (b =? SLASH) &&
+                      negb (match r with c :: _ => c =? SLASH | [] => false end)   (* not "///" *)
+                   then drop_to_slash r else t
   | _ => t
   end.
 Definition trimmed_path (url_path prefix : bytes) : bytes :=
